@@ -130,6 +130,16 @@ func (r *run) syncEvent(as []*actor, e Ev) {
 		}
 	}
 	synctest.Wait()
+	if r.verbose && noClip {
+		for _, a := range started {
+			for _, d := range a.dts {
+				d.mu.Lock()
+				nr, ne := len(d.rops), len(d.errs)
+				d.mu.Unlock()
+				r.logf("  after sync %s %s: state=%v view=%s remote-ops=%d errors=%d", a.name, d.key, d.dt.GetState(), viewOfDT(d.dt), nr, ne)
+			}
+		}
+	}
 	if r.on("entry") {
 		w.tick(0)
 		for _, c := range calls {
@@ -205,6 +215,15 @@ func (r *run) finalDrain() {
 	r.drainLag(nil)
 	r.settle(nil)
 	w.tick(0)
+	if r.verbose {
+		for _, a := range w.actors {
+			for _, d := range a.dts {
+				d.mu.Lock()
+				r.logf("%s %s: state=%v duid=%s remote-ops=%v errors=%v changes=%v", a.name, d.key, d.dt.GetState(), d.dt.GetDUID(), d.rops, d.errs, d.chg)
+				d.mu.Unlock()
+			}
+		}
+	}
 	r.mon.atQuiescence(r)
 }
 
